@@ -362,3 +362,35 @@ func VerifC14Null(viaJSON bool) {
 	}
 	vrt.Cover("checked")
 }
+
+// VerifC14ShortArray: "an array is overwritten element-wise with missing elements zeroed":
+// a JSON array (or, for a byte array, a base64 string) that is shorter than the Go array is
+// refused by default and, with UnmarshalArrayFromAnyLength, overwrites the leading elements
+// and ZEROES the rest - whatever the array held before. tmpl: `{"ba":"??=="}` (one byte of
+// payload), `{"ba":""}`, `{"ia":[?]}`, `{"ia":[]}`.
+func VerifC14ShortArray(tmpl string, anyLength bool) {
+	doc := vrt.Template("doc", tmpl)
+	v := zz14N{BA: [3]byte{1, 2, 3}, IA: [2]int8{4, 5}, U: 8}
+	var err error
+	if anyLength {
+		err = Unmarshal(doc, &v, jsonflags.UnmarshalArrayFromAnyLength|1)
+	} else {
+		err = Unmarshal(doc, &v)
+	}
+	vrt.Observe("ok", err == nil)
+	if !anyLength {
+		vrt.Assert("C14/short-array/refused-by-default", err != nil)
+		return
+	}
+	if err != nil {
+		vrt.Cover("refused")
+		return
+	}
+	vrt.Cover("accepted")
+	if doc[2] == 'b' {
+		vrt.Assert("C14/short-array/tail-zeroed", v.BA[1] == 0 && v.BA[2] == 0 && v.IA == [2]int8{4, 5})
+	} else {
+		vrt.Assert("C14/short-array/tail-zeroed", v.IA[1] == 0 && v.BA == [3]byte{1, 2, 3})
+	}
+	vrt.Assert("C14/short-array/others-kept", v.U == 8)
+}
